@@ -32,20 +32,20 @@ Lemma ceil_spec : forall s, num_ok s = true -> is_infinite s = false ->
     exists F, n_ceil s = NInt F /\ forall k, (npos s <=p ipos k <-> (F <= k)%Z).
 Proof.
   intros s Hs Hi. destr_num s; simpl in *; try discriminate.
-  - exists z. split; [reflexivity|]. intro k. apply ipos_le.
+  - exists z. split; [reflexivity|]. intro k. exact (ipos_le z k).
   - exists (- (- n / Zpos d))%Z. split; [reflexivity|]. intro k.
     rewrite PosO.le_iff, rat_ipos_cmp. rewrite Z.compare_le_iff.
     assert (Hd : (0 < Zpos d)%Z) by lia.
     split; intro H.
-    - assert ((- k) <= - n / Zpos d)%Z; [apply Z.div_le_lower_bound; lia|lia].
-    - destruct (Z_le_gt_dec n (k * Zpos d)) as [Hle|Hgt]; [exact Hle|exfalso].
+    + assert ((- k) <= - n / Zpos d)%Z; [apply Z.div_le_lower_bound; lia|lia].
+    + destruct (Z_le_gt_dec n (k * Zpos d)) as [Hle|Hgt]; [exact Hle|exfalso].
       assert (- n / Zpos d < - k)%Z; [apply Z.div_lt_upper_bound; lia|lia].
 Qed.
 Lemma floor_spec : forall e, num_ok e = true -> is_infinite e = false ->
     exists L, n_floor e = NInt L /\ forall k, (ipos k <=p npos e <-> (k <= L)%Z).
 Proof.
   intros e He Hi. destr_num e; simpl in *; try discriminate.
-  - exists z. split; [reflexivity|]. intro k. apply ipos_le.
+  - exists z. split; [reflexivity|]. intro k. exact (ipos_le k z).
   - exists (n / Zpos d)%Z. split; [reflexivity|]. intro k.
     rewrite PosO.le_iff. rewrite pos_cmp_antisym. change (PFin (n # d) 0) with (PFin (n # d) 0).
     rewrite rat_ipos_cmp.
@@ -56,9 +56,9 @@ Proof.
         assert (n / Zpos d < k)%Z; [apply Z.div_lt_upper_bound; lia|lia].
       - apply Z.div_le_lower_bound; lia. }
     destruct (n ?= k * Zpos d)%Z eqn:E; simpl.
-    + apply Z.compare_eq_iff in E. split; intro H; [apply Hiff; lia|discriminate].
-    + apply Z.compare_lt_iff in E. split; intro H; [exfalso; apply H; reflexivity|apply Hiff in H; lia].
-    + apply Z.compare_gt_iff in E. split; intro H; [apply Hiff; lia|discriminate].
+    + rewrite Z.compare_eq_iff in E. split; intro H; [apply Hiff; lia|discriminate].
+    + rewrite Z.compare_lt_iff in E. split; intro H; [exfalso; apply H; reflexivity|apply Hiff in H; exfalso; lia].
+    + rewrite Z.compare_gt_iff in E. split; intro H; [apply Hiff; lia|discriminate].
 Qed.
 
 (* the integer points *)
